@@ -16,6 +16,7 @@ type c06Case struct {
 	Blank string // blank-line form
 	Offs  int    // start offset
 	Cut   int    // 0: one call; > 0: first call sees buf[:Cut] (without no-more-data), the second the whole buffer
+	Tail  string `json:",omitempty"` // bytes that follow the M body bytes in the buffer (only used with a Content-Length and M == N)
 }
 
 var c06Heads = []string{
@@ -40,8 +41,13 @@ func (cs *c06Case) render() (buf []byte, bodyStart int, hasCLen bool) {
 	sb.WriteString(cs.Blank)
 	bodyStart = sb.Len()
 	for i := 0; i < cs.M; i++ {
+		if i < 2 && cs.N%2 == 1 && cs.Blank != "\r" {
+			sb.WriteByte("\n\r"[i]) // bodies of odd declared length begin with LF CR (not behind a lone-CR empty line)
+			continue
+		}
 		sb.WriteByte("abcdefghijklmnop"[i%16])
 	}
+	sb.WriteString(cs.Tail)
 	return []byte(sb.String()), bodyStart, hasCLen
 }
 
@@ -266,6 +272,19 @@ func checkC06(r *Run) {
 			}
 		}
 	}
+	// what follows the message in the buffer (a keep-alive CRLF CRLF, the next message, binary junk) never moves the
+	// returned offset: exact bodies of every head shape with a tail
+	for h := 1; h < len(c06Heads); h++ {
+		for _, n := range []int64{0, 1, 3, 12} {
+			for f := uint8(0); f < 8; f++ {
+				for _, tail := range []string{"\r\n\r\n", "\r\n", "\n\n", "\r\n\r\nINVITE sip:x SIP/2.0\r\n", "SIP/2.0 200 OK\r\nl: 0\r\n\r\n", "\x00\x00\x00\x00", " \t"} {
+					for _, b := range blanks[:2] {
+						cases = append(cases, c06Case{Head: h, N: n, M: int(n), Flags: f, Blank: b, Tail: tail})
+					}
+				}
+			}
+		}
+	}
 	// resumed framing: the same cases delivered in two pieces, cut inside the body / around the blank line
 	// (thorough: every cut of the short cases)
 	one := len(cases)
@@ -385,5 +404,5 @@ func init() {
 	}
 	register("C06", &checkDef{fn: checkC06,
 		rule:        "E4: product header-block shape x declared length x available body bytes x 8 flag values x blank-line form x start offset against the framing table of the statement; E2-style pipelines: every sequence of 1..K menu messages back to back, parsed from each returned offset with Reset / Init / a new object, each compared with the message parsed alone at the same offset; non-trivial = framing case with a definitive verdict / pipeline of >= 2 messages",
-		quickBudget: 60 * time.Second, thorBudget: 10 * time.Minute})
+		quickBudget: 180 * time.Second, thorBudget: 25 * time.Minute})
 }
